@@ -96,6 +96,8 @@ Inductive op :=
 Record rres := { q_pid : nat; q_wver : nat; q_a : acont; q_img : option (nat * nat * nat);
                  q_want : option (nat * nat * nat) }.
 
+Definition nmat (order : nat) (odd : bool) : nat := 1 + (if odd then order else order / 2).
+
 (* ---- _profiles -------------------------------------------------------------- *)
 Definition set_profiles (s : st) (p : option nat) (w : nat) (d : dstate) (i : option (nat * nat * nat))
            (reset_tr : bool) : st :=
@@ -136,7 +138,6 @@ Definition profiles (s : st) (c : call) : st * res (nat * nat * nat * nat) :=
   end.
 
 (* ---- _load_bs ----------------------------------------------------------------- *)
-Definition nmat (order : nat) (odd : bool) : nat := 1 + (if odd then order else order / 2).
 
 Definition fsize (k : fkey) (rmax : nat) (inv : bool) : nat :=
   let sz := fk_rmax k * fk_rmax k * fk_order k / (if fk_odd k then 1 else 2) in
@@ -277,6 +278,16 @@ Definition get_bs (s : st) (rmax order : nat) (odd fwd : bool) (reg vid : nat) (
 
 (* ---- the whole call ------------------------------------------------------------------ *)
 Definition a_rcont (a : acont) : rcont := match a with AFwd c _ | AInv _ c _ => c end.
+Definition a_reg (a : acont) : nat := match a with AFwd _ _ => 0 | AInv r _ _ => r end.
+
+(* `[An.dot(pn) for An, pn in zip(A, p)]`: zip silently drops surplus
+   matrices; matrices of a basis with more orders of the same parity (or any
+   basis when only order 0 is wanted) therefore still give the right answer *)
+Definition fit (c : rcont) (order : nat) (odd : bool) : rcont :=
+  if (nmat order odd <=? nmat (r_order c) (r_odd c)) && (eqb (r_odd c) odd || (nmat order odd =? 1))
+  then {| r_rmax := r_rmax c; r_order := order; r_odd := odd; r_junk := r_junk c |} else c.
+Definition fit_a (a : acont) (order : nat) (odd : bool) : acont :=
+  match a with AFwd c v => AFwd (fit c order odd) v | AInv r c v => AInv r (fit c order odd) v end.
 
 Definition step_call (s : st) (c : call) : st * res rres :=
   match profiles s c with
@@ -287,7 +298,10 @@ Definition step_call (s : st) (c : call) : st * res rres :=
       | (s2, Ret a) =>
           (* matrices of another radius do not fit the profiles *)
           if negb (r_rmax (a_rcont a) =? rmax) then (s2, Raise EShape)
+          else if (a_reg a =? 1) && negb (rcont_eqb (a_rcont a) (ideal rmax (c_order c) (c_odd c)))
+          then (s2, Raise EShape)                  (* nnls on a block matrix of another layout *)
           else
+            let a := fit_a a (c_order c) (c_odd c) in
             match c_geom c with
             | None => (s2, Ret {| q_pid := pid; q_wver := wver; q_a := a; q_img := None; q_want := None |})
             | Some g =>
